@@ -25,6 +25,9 @@ CLAIMED = {
  'C14': dict(technique='Coq proof over the field-write model translated from solver.py (induction over call histories) + exhaustive dynamic history / hash comparison',
              text='The net effect of every method of every solver class on the object fields is regenerated from the self.<attr> = ... statements (including try/finally) and proved to be the identity for every entry state and problem shape; hence, by induction over histories of any length, a reused object returns what a fresh one returns and repeating a call repeats the result. All histories of length <= 2 (3 thorough) over pools of problems of different shapes are executed for 11 class/configuration pairs and compared bit-for-bit with fresh objects; 46 public functions are checked for argument mutation and repeatability; both import styles are compared in fresh interpreters.',
              note='Trusted: Coq kernel, qtrans field-write translator (fail-closed on writes in loops/handlers/unmodelled conditions), the assumption that methods communicate only through fields and the global generator. Aliasing/mutation of caller arrays is observed by hashing, not proved. Known finding: Hess_QR_ggivens works in place.', ref='7/C14'),
+ 'C15': dict(technique='Coq proofs over R of the norm axioms for the modelled norms + generated Frobenius entry points + exact correspondence on integer-modulus inputs',
+             text='Theorems for all shapes over R: the quaternion modulus is multiplicative and sub-additive; the induced 1- and infinity-norms (maximum column/row sum of moduli) and the Frobenius norm are absolutely homogeneous, satisfy the triangle inequality and are sub-multiplicative; max s <= sqrt(sum s^2) <= sqrt(r) max s. All Frobenius entry points generated from utils.py (unified, sparse, legacy quaternion form, legacy component form) have the same radicand = sum of squared moduli. Each definition is compared exactly with the implementation on matrices whose entries have integer moduli.',
+             note='Trusted: Coq kernel + stdlib real axioms, qtrans, the hand model of the two induced-norm loops (tied by exact comparison). Axioms of the spectral norm and ||A||_2^2 <= ||A||_1 ||A||_inf are validated numerically only.', ref='7/C15'),
 }
 checks = []
 for pid, c in sorted(CLAIMED.items()):
